@@ -21,6 +21,7 @@ func main() {
 		timeout := fs.Int("t", 10, "solver timeout (s)")
 		verbose := fs.Bool("v", false, "print hypotheses of failed obligations")
 		dump := fs.String("dump", "", "directory to dump SMT of non-discharged obligations")
+		dumpAll := fs.Bool("dumpall", false, "dump every obligation")
 		fs.Parse(os.Args[2:])
 		t0 := time.Now()
 		p, err := LoadProgram(repoDir())
@@ -50,6 +51,12 @@ func main() {
 				rep = VerifyFunc(p, fc, VerifyOpts{})
 			}
 			DischargeAll(rep.Obligations, *timeout, false, runtime.NumCPU())
+			if *dumpAll && *dump != "" {
+				os.MkdirAll(*dump, 0o755)
+				for i, o := range rep.Obligations {
+					os.WriteFile(fmt.Sprintf("%s/%d-%s.smt2", *dump, i, sanitize(o.Name)), []byte(o.SMT(false, true)), 0o644)
+				}
+			}
 			if !printReport(rep, *verbose, *dump) {
 				rc = 1
 			}
